@@ -356,6 +356,9 @@ pub struct WorkPt {
     /// that runs at its maximum step is left with a final remainder far below the minimum step
     #[serde(default)]
     pub tail: Option<f64>,
+    /// start time (default 0.3); also -2.3, so that the whole interval or its first part lies at negative times
+    #[serde(default)]
+    pub t0: Option<f64>,
 }
 pub struct Work;
 pub const W: f64 = 100.0;
@@ -392,22 +395,26 @@ impl Check for Work {
                 for &tol in &t.pick(vec![1e-3, 1e-7], vec![1e-3, 1e-5, 1e-7, 1e-9]) {
                     for &dtmax_l in &[0.5, 0.1] {
                         for &horizon_l in &t.pick(vec![4.0], vec![1.0, 4.0]) {
-                            v.push(WorkPt { solver, problem: p.to_string(), tol, dtmax_l, horizon_l, dtmin_ratio: None, tail: None });
+                            v.push(WorkPt { solver, problem: p.to_string(), tol, dtmax_l, horizon_l, dtmin_ratio: None, tail: None, t0: None });
                         }
                     }
+                }
+                // negative times (horizon 1/L: the interval ends before 0; 4/L: it usually crosses 0)
+                for &horizon_l in &[1.0, 4.0] {
+                    v.push(WorkPt { solver, problem: p.to_string(), tol: 1e-5, dtmax_l: 0.5, horizon_l, dtmin_ratio: None, tail: None, t0: Some(-2.3) });
                 }
                 // minimum steps below the spacing of the doubles around the state (a step, difference or
                 // perturbation of that size is absorbed by rounding)
                 for &ratio in &[1e-6, 1e-12, 1e-18] {
-                    v.push(WorkPt { solver, problem: p.to_string(), tol: 1e-5, dtmax_l: 0.5, horizon_l: 4.0, dtmin_ratio: Some(ratio), tail: None });
+                    v.push(WorkPt { solver, problem: p.to_string(), tol: 1e-5, dtmax_l: 0.5, horizon_l: 4.0, dtmin_ratio: Some(ratio), tail: None, t0: None });
                 }
                 // a maximum step a hundred times larger than the method can use (the controller has to come down from it)
                 for &tol in &t.pick(vec![1e-7], vec![1e-5, 1e-7, 1e-9]) {
-                    v.push(WorkPt { solver, problem: p.to_string(), tol, dtmax_l: 5.0, horizon_l: 4.0, dtmin_ratio: None, tail: None });
+                    v.push(WorkPt { solver, problem: p.to_string(), tol, dtmax_l: 5.0, horizon_l: 4.0, dtmin_ratio: None, tail: None, t0: None });
                 }
                 // a final remainder far below the minimum step
                 for &tail in &[1e-9, 3e-12, 0.0] {
-                    v.push(WorkPt { solver, problem: p.to_string(), tol: 1e-3, dtmax_l: 0.5, horizon_l: 4.0, dtmin_ratio: None, tail: Some(tail) });
+                    v.push(WorkPt { solver, problem: p.to_string(), tol: 1e-3, dtmax_l: 0.5, horizon_l: 4.0, dtmin_ratio: None, tail: Some(tail), t0: None });
                 }
             }
         }
@@ -416,7 +423,7 @@ impl Check for Work {
     fn run(&self, p: &WorkPt) -> Outcome {
         let mut o = Outcome::new();
         let prob = problem(&p.problem);
-        let t0 = 0.3;
+        let t0 = p.t0.unwrap_or(0.3);
         let l0 = prob.lipschitz(t0, t0 + p.horizon_l).max(1.0);
         let t1 = t0 + p.horizon_l / l0;
         let l = prob.lipschitz(t0, t1).max(1.0);
@@ -479,7 +486,9 @@ pub struct GlobalPt {
     pub t0: Option<f64>,
 }
 pub struct Global;
-const PROBLEMS10: [&str; 10] = ["lin+1", "lin-2", "logistic", "gauss", "cost", "relax", "osc1", "rot2:lin-2+logistic", "rot3:osc2.5+gauss", "rot4:osc1+logistic+bernoulli"];
+// (the two unrotated direct sums have components with very different - or exactly zero - errors: an error measure that
+// looks at the best component only is blind on them)
+const PROBLEMS10: [&str; 12] = ["lin+1", "lin-2", "logistic", "gauss", "cost", "relax", "osc1", "rot2:lin-2+logistic", "rot3:osc2.5+gauss", "rot4:osc1+logistic+bernoulli", "sum2:lin+1+rest", "sum2:lin+1+lin-2"];
 fn global_cfg(solver: Solver, prob: &Problem, tol: f64, t0: f64) -> (Cfg, f64) {
     let l = prob.lipschitz(t0, t0 + 2.0).max(0.5);
     let t1 = t0 + 2.0 / l;
@@ -497,7 +506,7 @@ impl Check for Global {
         "global-error"
     }
     fn rule(&self) -> String {
-        "7 solvers x 10 closed-form problems x tolerance ladder with the C02 step cap (Euler: step ladder 0.1 x 2^-k / L), start time 0.3 (non-autonomous problems also -0.45, so that the interval straddles 0), static dimension, and for 3 problems x 2 tolerances also dynamic dimension (must agree with the static run to rounding); every yielded state compared with the true solution; signature = (solver, ladder rung, end kind, static/dynamic)".into()
+        "7 solvers x 12 closed-form problems (two of them unrotated direct sums) x tolerance ladder with the C02 step cap (Euler: step ladder 0.1 x 2^-k / L), start time 0.3 (non-autonomous problems also -0.45, so that the interval straddles 0), static dimension, and for 3 problems x 2 tolerances also dynamic dimension (must agree with the static run to rounding); every yielded state compared with the true solution; signature = (solver, ladder rung, end kind, static/dynamic)".into()
     }
     fn axes(&self, t: Tier) -> Value {
         json!({"problems": PROBLEMS10, "tol": t.pick(vec![1e-3, 1e-6, 1e-9], vec![1e-3, 1e-4, 1e-5, 1e-6, 1e-7, 1e-8, 1e-9, 1e-10]), "euler_step*L": t.pick("0.1*2^-k, k in {0,3,6}", "0.1*2^-k, k=0..9"), "K": {"rk45": KG, "adams5": kg_of(Solver::Adams5), "adams3": kg_of(Solver::Adams3), "bdf6": kg_of(Solver::BDF6), "rk23": kg_of(Solver::RK23), "bdf2": kg_of(Solver::BDF2)}})
